@@ -7,8 +7,14 @@ var extraNotes4 = map[string][2]string{
 	"C13": {"provenance rule for the counter write-back", "(P2) the value collectGarbage writes back to gcSize does not depend on any variable accumulated by the candidate-selection callback handed to gcIndex.Iterate."},
 	"C17": {"coverage rule of the all-bits-set test behind the fully-downloaded report", "(V1) BitVector.Equals answers true only after a counting loop from 0 to bv.len (bit form, advancing only behind Get(i)) or to bv.len/8 (byte form, advancing only behind b[j]==0xff, the tail compared under the mask 1<<(len%8)-1) has run to its end; (V2) isDownload answers the constant false or Equals of a vector read from the presence table."},
 	"C19": {"must-stage rule", "(F3) every return of a shed *InBatch method is preceded on all paths by a staging call on the batch parameter, or lies only behind a non-nil error of some call — no method decides from the currently stored value to skip the staging; (W2) every append onto Index.prefix (the filter prefix of Iterate / First / Last) starts from bytes clipped to their length, at the site or at every store of the field — the shared prefix bytes are never written."},
-	"C39": {"coverage rule of the all-bits-set test", "(V1) as C17.V1."},
+	"C39": {"coverage rules", "(V1) as C17.V1; (V2) every counting loop of a BitVector method starts its counter at 0 and only advances it by one (a sufficient condition: a correct skip-ahead optimisation would be reported for review)."},
 	"C22": {"adjacency rule for the saturation pass", "(G4) in recalcDepth's saturation callback the cursor cell (compared == with the peer's bin) is set to the peer's bin only behind bin <= cursor+1: a bin with no reachable peer is not passed over."},
+	"C12": {"removal-list rule shared with C16", "(G4) = C16.G1: the list of chunks an eviction may delete (getUnRepeatChunk) never holds a chunk whose per-file reference count exceeds one."},
+	"C25": {"choice rule for the written duration", "(G2) on the edges carrying each alternative into the written duration: the stored duration is kept only where it is 0 (forever) or the request is not 0; the requested one is written only where the stored one is not 0 and the request is 0 or not smaller."},
+	"C29": {"requested-orders test", "(G4) inArray answers true only behind an equality of the proximity with an element of the requested orders, neither side narrowed first (uint8(order) maps 258 onto 2)."},
+	"C31": {"monotone-write rule for the running totals", "(W2) outside the constructor every assignment to retrieveTraffic / retrieveChequeTraffic / transferTraffic / transferChequeTraffic is max(current, x), current + x on a fresh big.Int, or the cumulative payout of the cheque being recorded — never a plain copy that could lower it."},
+	"C33": {"restore-set exhaustiveness", "(H1) in trafficInit the keys of LastSendCheques() and LastReceivedCheques() are inserted into the address set that getAllAddress / replaceTraffic restore."},
+	"C40": {"ordering rule for subscription vs unsubscription", "(O1) Subscribe queues the subscription before starting the unsubscribing goroutine, and either both travel on one channel or the unsubscription branch of process first receives len(subInfoChan) queued subscriptions before loading the subscriber list."},
 	"C20": {"scan-width rule", "(K1) the byte limit of the comparison loop in Proximity / ExtendedProximity starts from a constant K with K*8 >= the function's own cap (MaxPO / ExtendedPO)."},
 }
 
